@@ -206,11 +206,9 @@ theorem run_shape (ρ : List FunDef) : ∀ (f : Nat) (j : Job) (s : St), (run ρ
         simp only [run]
         refine withFnCall_shape _ _ (fun s0 => ?_)
         refine bnd_shape _ _ _ (ih _ _) (fun l t ht => ?_)
-        have htag : (tagParamAlias e t l).shape = t.shape := by
+        have htag : (tagParamAlias t l).shape = t.shape := by
           unfold tagParamAlias
-          split
-          · split <;> rfl
-          · rfl
+          split <;> rfl
         refine bnd_shape _ _ _ (by rw [shape_cloneIfNecessary, htag, ht]) (fun l2 t2 ht2 => ?_)
         split
         · rename_i h; rw [shape_addObject _ _ _ _ h]; simp [ht2]
